@@ -487,6 +487,24 @@ func init() {
 				runC18Stress(t, rng, rec, tier, caseNo)
 			case 1:
 				inBubble(t, func(t *testing.T) { runC04Burst(t, rng, rec, tier, caseNo) })
+			case 2:
+				// client side: concurrent writers on the relayed socket, timers, inbound bursts (C13's
+				// workload) - here for its interleavings under the race detector
+				inBubble(t, func(t *testing.T) { runC13(t, rng, rec, tier, 1+caseNo/7*7%6) })
+			case 3:
+				// client side: 2-8 concurrent transactions with permuted answers, Close and write errors
+				inBubble(t, func(t *testing.T) {
+					x := newC12(t, rng, rec, pick(rng, c12RTOs))
+					defer x.close()
+					switch rng.Intn(3) {
+					case 0:
+						x.caseConcurrent()
+					case 1:
+						x.caseClose()
+					default:
+						x.caseWriteError()
+					}
+				})
 			default:
 				inBubble(t, func(t *testing.T) { runC18Schedule(t, rng, rec, tier, caseNo) })
 			}
